@@ -1111,7 +1111,9 @@ impl Template {
 
     fn build_hash_stmt(&self, this: TokenStream) -> TokenStream {
         let this = self.apply(this);
-        quote_spanned!(this.span()=> ::core::hash::Hash::hash(&(#this), __state);)
+        // location of the key expression, names (`__state`) resolved at the macro call site
+        let span = this.span().resolved_at(Span::call_site());
+        quote_spanned!(span=> ::core::hash::Hash::hash(&(#this), __state);)
     }
 }
 fn build_to_index_fn(variants: &[VariantEntry]) -> TokenStream {
